@@ -2,6 +2,8 @@ package props
 
 import (
 	"fmt"
+	"net"
+	"strconv"
 	"strings"
 	"sync"
 	"time"
@@ -220,6 +222,24 @@ func init() {
 			for _, ru := range []string{"haa", "had", "hda", "hdd", "paa", "pad", "pda", "pdd"} {
 				out = append(out, sp("C06", "fixed-reuse/"+ru, seed, P("fixed", "1", "dir", "h", "ord", "a", "gap", "0", "reuse", ru)))
 			}
+			// bursts: many establishments issued at the same instant
+			for _, mode := range []string{"hdial", "pdial", "dispense"} {
+				for _, kk := range []string{"4", "9", "24", "70"} {
+					nv := 3
+					if tier == "thorough" {
+						nv = 60
+					}
+					for v := 0; v < nv; v++ {
+						s := sp("C06", fmt.Sprintf("burst/%s/%s/%d", mode, kk, v), seed+uint64(v)*7919, P("burst", mode, "k", kk))
+						if v > 0 {
+							s.HotPermille, s.DelayClass = 60, []string{"tiny", "small"}[v%2]
+							s.Focus = "mux_broker.go"
+							s.Wake = []int{0, 500, 1000}[v%3]
+						}
+						out = append(out, s)
+					}
+				}
+			}
 			// fixed corner cases first
 			for _, dir := range []string{"h", "p"} {
 				for _, ord := range []string{"a", "d"} {
@@ -243,9 +263,113 @@ func init() {
 				runPairRace(r, h.Conf{Proto: "netrpc"}, "mux")
 				return
 			}
+			if r.Spec.P("burst", "") != "" {
+				runBrokerBurst(r, h.Conf{Proto: "netrpc"}, "mux")
+				return
+			}
 			runBrokerPairs(r, h.Conf{Proto: "netrpc"}, "mux")
 		},
 	})
+}
+
+// runBrokerBurst: k establishments issued at the same instant (the accepts
+// first, then all dials at once; or k Dispenses at once), each of which must
+// succeed and reach its own peer.
+func runBrokerBurst(r *h.Run, c h.Conf, kind string) {
+	w := r.W
+	mode := r.Spec.P("burst", "hdial")
+	kk, _ := strconv.Atoi(r.Spec.P("k", "8"))
+	ctx := fmt.Sprintf("broker=%s burst=%s k=%d", kind, mode, kk)
+	s := open(r, c)
+	if s == nil {
+		return
+	}
+	inj0 := w.InjectedTotal()
+	type res struct {
+		id  uint32
+		out h.Outcome
+	}
+	results := make([]res, kk)
+	var wg sync.WaitGroup
+	switch mode {
+	case "hdial", "pdial":
+		for i := 0; i < kk; i++ {
+			id := uint32(8000 + i)
+			if mode == "hdial" {
+				s.cmd.Do("accept", fmt.Sprint(id))
+			} else {
+				h.HostAccept(r, s.cmd, id)
+			}
+		}
+		time.Sleep(20 * time.Millisecond)
+		for i := 0; i < kk; i++ {
+			i, id := i, uint32(8000+i)
+			wg.Add(1)
+			go k.Trap(func() {
+				defer wg.Done()
+				results[i] = res{id, r.Do(fmt.Sprintf("BurstDial(%d)", id), 90*time.Second, func() (any, error) {
+					if mode == "hdial" {
+						return h.HostDialPing(s.cmd, id)
+					}
+					return s.cmd.Do("dial", fmt.Sprint(id))
+				})}
+			})
+		}
+		wg.Wait()
+		for _, rs := range results {
+			switch {
+			case rs.out.Hung:
+				r.Violate("hang", "op=Dial "+ctx, "dial never returned")
+			case rs.out.Err != nil:
+				if w.InjectedTotal()-inj0 < 2*time.Second {
+					r.Violate("lost-pair", ctx, fmt.Sprintf("accepts for %d ids were outstanding, then all were dialled at once; the dial of id %d failed: %v", kk, rs.id, rs.out.Err))
+				}
+			case rs.out.Val.(string) != fmt.Sprintf("id=%d", rs.id):
+				r.Violate("misroute", ctx, fmt.Sprintf("id %d answered by %q", rs.id, rs.out.Val))
+			}
+		}
+	case "dispense":
+		tags := make([]string, kk)
+		for i := 0; i < kk; i++ {
+			i := i
+			wg.Add(1)
+			go k.Trap(func() {
+				defer wg.Done()
+				results[i] = res{uint32(i), r.Do(fmt.Sprintf("BurstDispense#%d", i), 90*time.Second, func() (any, error) {
+					raw, err := s.cp.Dispense(h.PluginName)
+					if err != nil {
+						return nil, err
+					}
+					return raw.(plugins.Cmd).Do("tag", "")
+				})}
+			})
+		}
+		wg.Wait()
+		seen := map[string]int{}
+		for i, rs := range results {
+			switch {
+			case rs.out.Hung:
+				r.Violate("hang", "op=Dispense "+ctx, "Dispense never returned")
+			case rs.out.Err != nil:
+				if w.InjectedTotal()-inj0 < 2*time.Second {
+					r.Violate("dispense-failed", ctx, fmt.Sprintf("%d Dispenses were issued at once; number %d failed: %v", kk, i, rs.out.Err))
+				}
+			default:
+				tags[i] = rs.out.Val.(string)
+				seen[tags[i]]++
+			}
+		}
+		for t, n := range seen {
+			if n > 1 {
+				r.Violate("shared-server", ctx, fmt.Sprintf("%d Dispenses reached the same server object %s", n, t))
+			}
+		}
+	}
+	w.Probe("burst." + mode)
+	if o := r.DoNoHang("Ping", 60*time.Second, ctx, func() (any, error) { return nil, s.cp.Ping() }); o.Err != nil && w.InjectedTotal()-inj0 < 2*time.Second {
+		r.Violate("main-conn-lost", ctx, fmt.Sprintf("ping after the burst failed: %v", o.Err))
+	}
+	s.kill()
 }
 
 func parseDur(s string) time.Duration {
@@ -588,6 +712,23 @@ func init() {
 					}
 				}
 			}
+			for _, mode := range []string{"hdial", "pdial"} {
+				for _, kk := range []string{"4", "12", "40"} {
+					nv := 2
+					if tier == "thorough" {
+						nv = 40
+					}
+					for v := 0; v < nv; v++ {
+						s := sp("C07", fmt.Sprintf("burst/%s/%s/%d", mode, kk, v), seed+uint64(v)*7919, P("tls", []string{"none", "auto"}[v%2], "launch", "cmd", "burst", mode, "k", kk))
+						if v > 0 {
+							s.HotPermille, s.DelayClass = 60, []string{"tiny", "small"}[v%2]
+							s.Focus = "grpc_broker.go"
+							s.Wake = []int{0, 500, 1000}[v%3]
+						}
+						out = append(out, s)
+					}
+				}
+			}
 			for _, ru := range []string{"ha", "hd", "pa", "pd"} {
 				out = append(out, sp("C07", "fixed-reuse/"+ru, seed, P("tls", "none", "launch", "cmd", "fixed", "1", "dir", "h", "ord", "a", "gap", "0", "reuse", ru)))
 				// the same with the broker's expiry goroutines stalled for up to seconds
@@ -625,6 +766,10 @@ func init() {
 				runPairRace(r, c, "grpc")
 				return
 			}
+			if r.Spec.P("burst", "") != "" {
+				runBrokerBurst(r, c, "grpc")
+				return
+			}
 			runBrokerPairs(r, c, "grpc")
 		},
 	})
@@ -653,6 +798,21 @@ func init() {
 			}
 			for _, st := range []string{"h", "p"} {
 				out = append(out, sp("C08", "fixed-stale-dialler/"+st, seed, P("fixed", "1", "tls", "none", "dir", "h", "ord", "a", "gap", "0", "stale", st)))
+			}
+			for _, ra := range []string{"h", "p", "hdc", "pdc"} {
+				nv := 8
+				if tier == "thorough" {
+					nv = 200
+				}
+				for v := 0; v < nv; v++ {
+					s := sp("C08", fmt.Sprintf("fixed-reaccept/%s/%d", ra, v), seed+uint64(v)*7919, P("fixed", "1", "tls", "none", "dir", "h", "ord", "a", "gap", "0", "reaccept", ra))
+					if v > 0 {
+						s.HotPermille, s.DelayClass = 100, "tiny"
+						s.Focus = "GRPCBroker.Accept,grpcmux/"
+						s.Wake = []int{0, 500, 1000}[v%3]
+					}
+					out = append(out, s)
+				}
 			}
 			for _, tls := range []string{"none", "auto"} {
 				for _, dir := range []string{"h", "p"} {
@@ -904,6 +1064,83 @@ func runC08(r *h.Run) {
 		po := r.DoNoHang("Ping(after-reuse)", 60*time.Second, rctx, func() (any, error) { return nil, s.cp.Ping() })
 		if po.Err != nil && !noisy() {
 			r.Violate("main-conn-lost", rctx, fmt.Sprintf("ping after ID re-use failed: %v", po.Err))
+		}
+	}
+	// an ID accepted again the moment its previous listener is closed (no pause:
+	// whatever the previous listener still has to tidy up runs after the new
+	// one is registered); with "dc" the previous listener is then closed a
+	// second time, as the `defer ln.Close()` after a server's Stop does
+	if c.TLS != "auto" && lateMark == "" && !noisy() && (r.Spec.P("reaccept", "") != "" || (r.Spec.P("fixed", "") != "1" && w.Range("reaccept/on", 3) == 0)) {
+		mode := r.Spec.P("reaccept", "")
+		if mode == "" {
+			mode = []string{"h", "p", "hdc", "pdc"}[w.Range("reaccept/mode", 4)]
+		}
+		hostAccepts := mode[0] == 'h'
+		dc := strings.HasSuffix(mode, "dc")
+		aid := uint32(1700)
+		actx := fmt.Sprintf("broker=grpcmux id-reaccepted-at-once accept-side=%s second-close=%v", map[bool]string{true: "host", false: "plugin"}[hostAccepts], dc)
+		dialChk := func(round string) bool {
+			o := r.Do(fmt.Sprintf("ReacceptDial(%d)[%s]", aid, round), 60*time.Second, func() (any, error) {
+				if hostAccepts {
+					return s.cmd.Do("dial", fmt.Sprint(aid))
+				}
+				return h.HostDialPing(s.cmd, aid)
+			})
+			switch {
+			case o.Hung:
+				r.Violate("hang", "op=Dial "+actx+" step="+round, "dial never returned")
+			case o.Err != nil:
+				if !noisy() {
+					r.Violate("lost-pair", actx+" step="+round, fmt.Sprintf("dial of id %d failed: %v", aid, o.Err))
+				}
+			case o.Val.(string) != fmt.Sprintf("id=%d", aid):
+				r.Violate("misroute", actx+" step="+round, fmt.Sprintf("id %d answered by %q", aid, o.Val))
+			default:
+				return true
+			}
+			return false
+		}
+		var stop func()
+		var ln0 net.Listener
+		var err error
+		if hostAccepts {
+			stop, ln0, err = h.HostAcceptOwnLn(s.cmd, aid)
+		} else {
+			_, err = s.cmd.Do("acceptown", fmt.Sprint(aid))
+		}
+		if err != nil {
+			r.Violate("lost-pair", actx+" step=first", fmt.Sprintf("Accept(%d) failed: %v", aid, err))
+		} else if dialChk("first") {
+			ok := true
+			if hostAccepts {
+				so := r.Do(fmt.Sprintf("StopOwnServer(%d)", aid), 30*time.Second, func() (any, error) { stop(); return nil, nil })
+				if so.Hung {
+					r.Violate("hang", "op=StopOwnServer "+actx, "stopping the server of a brokered listener never returned")
+					ok = false
+				} else if stop, _, err = h.HostAcceptOwnLn(s.cmd, aid); err != nil {
+					r.Violate("lost-pair", actx+" step=reaccept", fmt.Sprintf("Accept(%d) failed: %v", aid, err))
+					ok = false
+				} else if dc {
+					ln0.Close()
+				}
+			} else if _, err := s.cmd.Do("reacceptown", fmt.Sprint(aid)+map[bool]string{true: ":dc", false: ""}[dc]); err != nil {
+				r.Violate("lost-pair", actx+" step=reaccept", fmt.Sprintf("plugin: %v", err))
+				ok = false
+			}
+			if ok {
+				w.Probe("mux.id-reaccepted-at-once")
+				time.Sleep(time.Duration(w.Range("reaccept/wait", 3)) * 50 * time.Millisecond)
+				dialChk("reaccepted")
+				if hostAccepts {
+					r.Do(fmt.Sprintf("StopOwnServer(%d)#2", aid), 30*time.Second, func() (any, error) { stop(); return nil, nil })
+				} else {
+					s.cmd.Do("stopown", fmt.Sprint(aid))
+				}
+			}
+		}
+		po := r.DoNoHang("Ping(after-reaccept)", 60*time.Second, actx, func() (any, error) { return nil, s.cp.Ping() })
+		if po.Err != nil && !noisy() {
+			r.Violate("main-conn-lost", actx, fmt.Sprintf("ping failed: %v", po.Err))
 		}
 	}
 	// a dialler that keeps its connection object while the accepting side stops
